@@ -14,7 +14,7 @@ func init() { props["C05"] = muxProp{5, genC05, oracleC05} }
 
 func genC05(r *Rng, tier string, emit func(string, Tok)) {
 	muxGenAll(r, tier, muxMix{
-		random: scale(tier, 120, 2000), maxLen: scale(tier, 60, 400),
+		random: scale(tier, 120, 600), maxLen: scale(tier, 60, 400),
 		wrap: scale(tier, 6, 60), bigPMT: scale(tier, 25, 250), many: scale(tier, 80, 1000), ood: scale(tier, 25, 250),
 		exhaustive: scale(tier, 3, 5),
 	}, emit)
@@ -40,6 +40,11 @@ func oracleC05(period int, ops []muxOp, calls []muxCall) string {
 		at := fmt.Sprintf("call %d (%s): ", i, opName(o))
 		if o.kind == opAdd && c.code == -1 && o.es.ElementaryPID != 0 && reservedPID(o.es.ElementaryPID) {
 			tainted[o.es.ElementaryPID&0x1fff] = true
+		}
+		if o.kind == opData && !muxDataInDomain(o.d) {
+			// outside the domain (S1: writer-internal adaptation field members set by the caller, nil PES or header,
+			// unsupported header): a rejected first packet may have consumed a counter value; the PID is not judged further
+			tainted[o.d.PID&0x1fff] = true
 		}
 		emitted := map[uint16]bool{}
 		if o.kind != opPacket { // a packet handed to WritePacket carries the caller's counter
